@@ -175,3 +175,11 @@ Theorem C15_getitem_current : forall s m,
 Proof. exact section_getitem_pin. Qed.
 Print Assumptions C15_contains_current.
 Print Assumptions C15_getitem_current.
+
+(* ---- deletion by a str key is the Python's: delitem (KStr) equals SectionItems.__delitem__ re-translated on
+   every run from /repo (the first item whose session mnemonic matches is removed; None = KeyError). *)
+Require Import FuncsPinMutators.
+Theorem C15_delitem_current : forall s m,
+  py_section_delitem (transforms s) (List.map pitem_of (items s)) m = ires_items (delitem s (KStr m)).
+Proof. exact delitem_pin. Qed.
+Print Assumptions C15_delitem_current.
